@@ -567,6 +567,8 @@ pub fn bfs_file(
 /// Replays a cursor history from a fresh cursor, checking the C03 and C16 oracles at every step.
 pub fn replay_history(spec: &FileSpec, ops: &[Op], prop: &str) -> Result<String, String> {
     let (entries, bytes) = crate::common::build_file(spec)?;
+    // C10 runs its histories on the V1 re-trailed file
+    let bytes = if prop == "C10" { vlib::fmt::retrail_as_v1(&bytes)? } else { bytes };
     let model = Model::new(entries);
     let src = CountSrc::new(&bytes);
     let stats = src.stats.clone();
